@@ -31,6 +31,9 @@ pub struct Cfg {
     pub beyond: bool,
     /// S: call sync() after every operation (Q = 0)
     pub autosync: bool,
+    /// with autosync: no sync() after a clock advance (autosync=2), so that entries can be
+    /// expired but not purged when the next call begins
+    pub lazyadv: bool,
     pub nkeys: u8,
     /// bound: max operations left pending in the queues of S
     pub q: usize,
@@ -62,6 +65,7 @@ impl Default for Cfg {
             tick_ms: 1000,
             beyond: true,
             autosync: false,
+            lazyadv: false,
             nkeys: 3,
             q: 2,
             a: 1,
@@ -94,7 +98,7 @@ impl Cfg {
             self.hash.name(),
             self.tick_ms,
             self.beyond as u8,
-            self.autosync as u8,
+            if self.lazyadv { 2 } else { self.autosync as u8 },
             self.nkeys,
             self.q,
             self.a,
@@ -131,7 +135,10 @@ impl Cfg {
                 "hash" => c.hash = HashKind::parse(v),
                 "tick" => c.tick_ms = v.parse().unwrap(),
                 "beyond" => c.beyond = v == "1",
-                "autosync" => c.autosync = v == "1",
+                "autosync" => {
+                    c.autosync = v == "1" || v == "2";
+                    c.lazyadv = v == "2";
+                }
                 "keys" => c.nkeys = v.parse().unwrap(),
                 "Q" => c.q = v.parse().unwrap(),
                 "A" => c.a = v.parse().unwrap(),
@@ -464,7 +471,7 @@ impl Sut {
                 }
             },
         };
-        if cfg.autosync {
+        if cfg.autosync && !(cfg.lazyadv && matches!(op, Op::Adv(_))) {
             if let Sut::S { c, .. } = self {
                 c.sync();
             }
